@@ -9,7 +9,18 @@ def _arr(g, shape, kind):
     v = np.round(g.standard_normal(shape), 3)
     if kind in ("c128", "c64"):
         v = v + 1j * np.round(g.standard_normal(shape), 3)
-    return v.astype(opgen.NP_KIND[kind])
+    v = v.astype(opgen.NP_KIND[kind])
+    # caller arrays are not always freshly allocated C-contiguous blocks
+    lay = int(g.integers(0, 6))
+    if lay == 0 and v.ndim >= 2:
+        return np.asfortranarray(v)
+    if lay == 1 and v.ndim >= 1 and v.shape[-1] > 0:
+        big = np.zeros(v.shape[:-1] + (v.shape[-1] * 2,), dtype=v.dtype)
+        big[..., ::2] = v
+        return big[..., ::2]
+    if lay == 2 and v.ndim >= 1:
+        return np.ascontiguousarray(v[..., ::-1])[..., ::-1]
+    return v
 
 
 def _shape(g, nd=None, lo=1, hi=7):
